@@ -191,9 +191,6 @@ int get_tmp_fd(zckCtx *zck) {
     offset += i;
     fname[offset] = '\0';
 
-    typedef int mode_t;
-    mode_t old_mode_mask;
-
     #ifdef _WIN32
     errno_t out = _mktemp_s(
         fname,
@@ -201,9 +198,10 @@ int get_tmp_fd(zckCtx *zck) {
     );
     temp_fd = open(fname, O_CREAT | O_EXCL | O_RDWR | O_BINARY);
     #else
-    old_mode_mask = umask (S_IXUSR | S_IRWXG | S_IRWXO);
+    /* mkstemp() creates the file with mode 0600 (POSIX.1-2008).  The umask is
+     * not touched: it belongs to the whole process, and saving and restoring
+     * it here from two threads can leave the process with the narrowed mask */
     temp_fd = mkstemp(fname);
-    umask(old_mode_mask);
     #endif
     if(temp_fd < 0) {
         free(fname);
